@@ -135,7 +135,29 @@ PendOthers(e) ==
            T == (IF e.ev = "cancel" THEN RefreshLite(st, ActW(e)) ELSE st).w[ActW(e)].txs
            n == Cardinality({t \in DOMAIN T : ~T[t].conf /\ T[t].ty \in {"TxSent", "TxReceived"} /\ T[t].slate # me})
        IN IF n > 2 THEN 2 ELSE n
-Log(e) == hist' = Append(hist, [f \in (DOMAIN e) \cup {"eff", "ost", "tty", "pend"} |->
+\* ... and in which SITUATION the slate of the step is in the acting wallet: what has become of its sent entry
+\* (none / live / confirmed / cancelled) and of the inputs its context names (no context / none chosen yet / gone / reserved
+\* for ANOTHER transaction / reserved / spent / free).  The behaviour selection covers every (step kind, situation) class.
+SitCls(e) ==
+  IF ActW(e) = "" \/ "sl" \notin DOMAIN e THEN ""
+  ELSE LET wr == st.w[ActW(e)]
+           sl == e.sl
+           ents == {t \in DOMAIN wr.txs : wr.txs[t].slate = sl /\ wr.txs[t].ty \in {"TxSent", "TxSentCancelled"}}
+           est == IF ents = {} THEN "noentry"
+                  ELSE IF \E t \in ents : wr.txs[t].ty = "TxSent" /\ ~wr.txs[t].conf THEN "live"
+                  ELSE IF \E t \in ents : wr.txs[t].ty = "TxSent" THEN "confirmed" ELSE "cancelled"
+           ins == IF sl \in DOMAIN wr.ctxs THEN wr.ctxs[sl].ins ELSE {}
+           other(k) == /\ wr.outs[k].st = "Locked"
+                       /\ LET t == TxKeyOf(wr.outs[k].acct, wr.outs[k].tx) IN t \in DOMAIN wr.txs /\ wr.txs[t].slate # sl
+           ist == IF sl \notin DOMAIN wr.ctxs THEN "noctx"
+                  ELSE IF ins = {} THEN "noins"
+                  ELSE IF \E k \in ins : k \notin DOMAIN wr.outs THEN "gone"
+                  ELSE IF \E k \in ins : other(k) THEN "other"
+                  ELSE IF \E k \in ins : wr.outs[k].st = "Spent" THEN "spent"
+                  ELSE IF \A k \in ins : wr.outs[k].st = "Locked" THEN "reserved" ELSE "free"
+       IN est \o "/" \o ist
+Log(e) == hist' = Append(hist, [f \in (DOMAIN e) \cup {"eff", "ost", "tty", "pend", "scls"} |->
+                                  IF f = "scls" THEN SitCls(e) ELSE
                                   IF f = "eff" THEN EffSize
                                   ELSE IF f = "pend" THEN PendOthers(e)
                                   ELSE IF f = "ost" THEN (IF ActW(e) = "" THEN {} ELSE {st.w[ActW(e)].outs[k].st : k \in DOMAIN st.w[ActW(e)].outs})
